@@ -37,6 +37,10 @@ MUTATORS = {"update", "pop", "popitem", "clear", "setdefault", "__setitem__", "_
 # callees the cache dictionary may be handed to (each confirmed by reading)
 ESCAPES_OK = {
     "copy.deepcopy": "copies",
+    "deepcopy": "copies",
+    "copy.copy": "shallow copy (tensors are never modified in place: R4a/R4b)",
+    "dict": "shallow copy (tensors are never modified in place: R4a/R4b)",
+    "list": "read-only", "tuple": "read-only", "sorted": "read-only", "set": "read-only", "frozenset": "read-only", "bool": "read-only", "repr": "read-only", "str": "read-only",
     "iter": "read-only iteration",
     "len": "read-only",
     "compute": "VariableInterface.compute(state): read-only (checked by R1c)",
@@ -297,10 +301,16 @@ def r4_out_of_place(ctx):
                     continue
                 ctx.check(ok, "C01.R4a", f, st, "write goes through State.__setitem__ (fork + invalidation)",
                           "State.put writes without going through self[...] = (no invalidation / snapshot)")
-    for c in [n for n in walk_no_nested(f.node) if isinstance(n, ast.Call) and isinstance(n.func, ast.Attribute)]:
-        if c.func.attr.endswith("_") and not c.func.attr.startswith("__"):
-            ctx.violation("C01.R4a", f, c, f"in-place tensor method `{c.func.attr}` mutates a cached value (and the REF snapshot)")
-    ctx.ok("C01.R4a", f, f.node, "no in-place tensor method in State.put")
+    # no in-place tensor method anywhere in the State class - called, or merely referenced (`m = v.index_put_ if ... else v.index_put`)
+    cls_state = ix.find_class("State")
+    for g in ix.iter_funcs():
+        if g.cls != cls_state:
+            continue
+        for a_ in walk_no_nested(g.node):
+            if isinstance(a_, ast.Attribute) and isinstance(a_.ctx, ast.Load) and a_.attr.endswith("_") and not a_.attr.endswith("__") and not a_.attr.startswith("_") and len(a_.attr) > 1:
+                ctx.violation("C01.R4a", g, a_, f"in-place tensor method `{a_.attr}` in State.{g.name}: it rewrites a cached value in place (the REF snapshot and every state sharing the tensor see it, "
+                              "no child is invalidated there)")
+    ctx.ok("C01.R4a", f, f.node, "no in-place tensor method (called or referenced) in the State class")
     # R4b: package-wide alias analysis (shared with C03)
     from ._shared import inplace_on_state_values
     sites, holders = inplace_on_state_values(ctx)
@@ -409,6 +419,8 @@ def rules(ctx):
 
 S = "src/leaspy/variables/state.py"
 VARIANTS = [
+    V("silent-clone-shallow-copy", S, "        cloned._values = copy.deepcopy(self._values)", "        cloned._values = dict(self._values)", None),
+    V("put-in-place-when-no-fork", S, "        self[variable_name] = self[variable_name].index_put(", "        self[variable_name] = (self[variable_name].index_put_ if self.auto_fork_type is None else self[variable_name].index_put)(", "C01.R4a"),
     V("direct-children", S, "sorted_children = self.dag.sorted_children[name]", "sorted_children = self.dag.direct_children[name]", "C01.R2"),
     V("no-reset", S, "        for child in sorted_children:\n            self._values[child] = None\n", "", "C01.R2"),
     V("reset-under-condition", S, "        for child in sorted_children:\n            self._values[child] = None\n",
